@@ -310,8 +310,8 @@ def leaf_key(l):
 # ---------------------------------------------------------------------------------------------------------------------
 # generators (SOURCE text; the trees come from CPython's parser)
 
-NAMES = ['a', 'b', 'c', 'x', 'y', 'cls', '_', 'é']
-ATOM_CONSTS = ['0', '1', '42', '1.5', '0.0', "'s'", 'b"by"', '"""t"""', 'None', 'True', 'False', '...', '2j', '1e3', '0x1F']
+NAMES = ['a', 'b', 'c', 'x', 'y', 'cls', '_', 'é', 'größe', '日本']
+ATOM_CONSTS = ['0', '1', '42', '1.5', '0.0', "'s'", 'b"by"', '"""t"""', "'ü日'", 'None', 'True', 'False', '...', '2j', '1e3', '0x1F']
 VALUE_FORMS = ['-1', '-1.5', '1+2j', '1 - 2j', '-1+2j', '-0.5 - 1.5j', '-2j', '- 1']
 BAD_ATOMS = ['a + b', 'a < b', 'a[0]', 'lambda: a', 'f(x)(y)', '+1', '~a', 'not a', 'a if b else c', '1 + 2', '1j + 2', '-a',
              '-(1)', '(-1)+2j', '1+(2j)', 'a @ b', 'f"{a}"', '[a for a in b]', 'a and b', '-True', '1 + -2j', 'x.y()', '_.a',
@@ -345,7 +345,7 @@ class SrcGen:
     def attr(self):
         n = self.r.choice(['a', 'b', 'cls', 'x', '_'] if self.r.random() < 0.15 else ['a', 'b', 'cls', 'x'])
         for _ in range(self.r.randint(1, 3)):
-            n += '.' + self.r.choice(['p', 'q', 'a', '_'])
+            n += '.' + self.r.choice(['p', 'q', 'a', '_', 'ñ'])
         return n
 
     def pars(self, s, p=0.12):
@@ -420,7 +420,8 @@ class SrcGen:
             for _ in range(na):
                 args.append('*' + self.name() if r.random() < 0.06 else self.expr(d - 1, True))
             for i in range(nk):
-                args.append('**' + self.name() if r.random() < 0.06 else f'k{i}{r.choice(["=", " = "])}{self.expr(d - 1, True)}')
+                args.append('**' + self.name() if r.random() < 0.06 else
+                            f'{r.choice(["k", "k", "ключ", "ß"])}{i}{r.choice(["=", " = "])}{self.expr(d - 1, True)}')
             return self.pars(f + '(' + (',' + self.ws(True)).join(args) + (',' if args and r.random() < 0.15 else '') + ')', 0.05)
         # or
         n = r.choice([2, 2, 3, 4])
@@ -465,7 +466,7 @@ class PatGen:
         if d <= 0 or r.random() < 0.25:
             c = r.random()
             if c < 0.4:
-                return self.pars(r.choice(['a', 'b', 'x', 'y', '_', 'é']), 0.06)
+                return self.pars(r.choice(['a', 'b', 'x', 'y', '_', 'é', 'größe', '日本']), 0.06)
             return self.pars(r.choice(PAT_VALUES), 0.06)
         k = r.choice(['seq', 'seq', 'seq', 'map', 'cls', 'or', 'or', 'as'])
         if k == 'seq':
@@ -499,7 +500,7 @@ class PatGen:
         if k == 'cls':
             f = r.choice(['C', 'cls', 'a.B', 'm.n.K'])
             na, nk = r.choice([0, 1, 2, 3]), r.choice([0, 0, 1, 2])
-            args = [self.pat(d - 1) for _ in range(na)] + [f'k{i}={self.pat(d - 1)}' for i in range(nk)]
+            args = [self.pat(d - 1) for _ in range(na)] + [f'{r.choice(["k", "ключ"])}{i}={self.pat(d - 1)}' for i in range(nk)]
             return f + '(' + (',' + self.ws()).join(args) + (',' if args and r.random() < 0.15 else '') + ')'
         if k == 'or':
             n = r.choice([2, 2, 3, 4])
@@ -580,16 +581,21 @@ def odd_patterns():
 # name `_` in every position
 
 
+MB_NAMES = ['größe', '日本', 'ñ', 'ключ']        # 2-, 3-byte characters; byte length != character length
+
+
 def _combos(classes, sep=', ', free_order=False, wrap=('', ''), names_us=True, last_sep=''):
     """classes: [(label, template)] in canonical source order; `{n}` in a template is the element's own name.
     Returns source strings: singles, ordered pairs (both orders if free_order), all; and the same with `_` as the name of
     one element."""
     out = []
 
-    def render(idxs, us=None):
+    def render(idxs, us=None, mb=None):
         parts = []
         for k, i in enumerate(idxs):
             nm = '_' if us == k else 'abcdefghij'[i] + 'x'
+            if mb == 'all' or mb == k:
+                nm = MB_NAMES[(i + k) % len(MB_NAMES)]
             parts.append(classes[i][1].replace('{n}', nm))
         return wrap[0] + sep.join(parts) + (last_sep if parts else '') + wrap[1]
 
@@ -609,6 +615,14 @@ def _combos(classes, sep=', ', free_order=False, wrap=('', ''), names_us=True, l
             for k in range(len(idxs)):
                 if '{n}' in classes[idxs[k]][1] and (len(idxs) <= 2 or k in (0, len(idxs) - 1)):
                     out.append(render(idxs, k))
+    # multi-byte identifiers (appended last: the indices of the shapes above are part of recorded signatures): one element with
+    # a non-ASCII name (in first position it is multi-byte text BEFORE the other elements on the line), and all of them
+    for idxs in sel:
+        for k in range(len(idxs)):
+            if '{n}' in classes[idxs[k]][1] and (len(idxs) <= 2 or k in (0, len(idxs) - 1)):
+                out.append(render(idxs, mb=k))
+        if len(idxs) > 1:
+            out.append(render(idxs, mb='all'))
     seen = set()
     return [s for s in out if not (s in seen or seen.add(s))]
 
@@ -622,12 +636,18 @@ def _arguments_shapes():
     n = len(cl)
     sel = [[i] for i in range(n)] + [[i, j] for i in range(n) for j in range(i + 1, n)] + [list(range(n)), [1, 3, 4], [1, 3, 4, 6],
                                                                                           [1, 1, 3, 4, 4], [0, 1, 3, 5, 6], [3, 4, 4]]
-    for idxs in sel:
-        for us in [None] + list(range(len(idxs))):
+    variants = [(idxs, us, None) for idxs in sel for us in [None] + list(range(len(idxs)))]
+    # multi-byte names, appended last (indices of the shapes above are part of recorded signatures)
+    variants += [(idxs, None, mb) for idxs in sel for mb in list(range(len(idxs))) + (['all'] if len(idxs) > 1 else [])
+                 if mb == 'all' or len(idxs) <= 2 or mb in (0, len(idxs) - 1)]
+    for idxs, us, mb in variants:
+        if True:
             parts = []
             star = False
             for k, i in enumerate(idxs):
                 nm = '_' if us == k else 'abcdefghij'[k] + 'x'
+                if mb == 'all' or mb == k:
+                    nm = MB_NAMES[(i + k) % len(MB_NAMES)] + ('' if mb != 'all' else str(k))
                 if i == 3:
                     star = True
                 if i in (4, 5) and not star:
@@ -635,7 +655,9 @@ def _arguments_shapes():
                     star = True
                 parts.append(cl[i][1].replace('{n}', nm))
             out.append(', '.join(parts))
-    out += ['a: int', 'a: int, *b, c: str, **d', '*a: int', '**k: int', 'a: int = 1', 'a, b: c.d, *, e: f = g']
+    out[len([v for v in variants if v[2] is None]):len([v for v in variants if v[2] is None])] = \
+        ['a: int', 'a: int, *b, c: str, **d', '*a: int', '**k: int', 'a: int = 1', 'a, b: c.d, *, e: f = g']
+    out += ['größe: int', 'ñ: 日本 = "ü"', "é='日本', *ключ, größe: ñ.ü = 'ß', **ü"]
     seen = set()
     return [s for s in out if not (s in seen or seen.add(s))]
 
